@@ -96,4 +96,28 @@ def ops : List (String × Op) := [
   ("di2c", ivOp cdsIntervalToSequence)
 ]
 
+/-- One answer per line; the lines are independent, so they are answered on all cores
+    (the interpreter behind `lean --run` is the bottleneck of this check, not the library). -/
+def answer (line : String) : String :=
+  runOp ops (line.trimRight)
+
+def main : IO Unit := do
+  let stdin ← IO.getStdin
+  let stdout ← IO.getStdout
+  let mut lines : Array String := #[]
+  repeat
+    let line ← stdin.getLine
+    if line.isEmpty then break
+    lines := lines.push line
+  let n := lines.size
+  let nchunks := 64
+  let size := (n + nchunks - 1) / nchunks
+  let tasks := (List.range nchunks).map fun c =>
+    Task.spawn fun _ =>
+      let sub := lines.extract (c * size) (min n ((c + 1) * size))
+      "\n".intercalate (sub.map answer).toList
+  for t in tasks do
+    let s := t.get
+    if !s.isEmpty then stdout.putStrLn s
+
 end BioCantor.Driver.Transcript
